@@ -272,9 +272,13 @@ def text_writer(F):
                         unknown.append(path)
         for (bb, pl, v) in p.stores:
             pe = n(pl)
-            m = match(("index", ("deref", P(2)), V("i")), pe)
+            m = match(("index", ("deref", V("view")), V("i")), pe)
+            w_ = None
             if m:
-                writes.append((m["i"], add(m["i"], C(1)), "byte", src_field(n(v), hf), None))
+                w_ = (C(0), None) if m["view"] == P(2) else window(m["view"], P(2))
+            if m and w_ is not None:
+                at = add(w_[0], m["i"])
+                writes.append((at, add(at, C(1)), "byte", src_field(n(v), hf), None))
             elif find_all(pe, lambda x: x == P(2)):
                 unknown.append("store " + sym.fmt(pe))
         out["modes"][mode] = {"gate": gate, "ret": ret, "writes": writes, "unknown": unknown, "path": p}
@@ -326,9 +330,14 @@ def binary_writer(F):
                         unknown.append(path)
         for (bb, pl, v) in p.stores:
             pe = n(pl)
-            m = match(("index", ("deref", P(2)), V("i")), pe)
+            m = match(("index", ("deref", V("view")), V("i")), pe)
+            w_ = None
             if m:
-                writes.append((m["i"], add(m["i"], C(1)), "byte", src_field(n(v), hf), None))
+                # an element store through the buffer itself or through a view of it (out[..N].split_at_mut(k).0[i] = ..)
+                w_ = (C(0), None) if m["view"] == P(2) else window(m["view"], P(2))
+            if m and w_ is not None:
+                at = add(w_[0], m["i"])
+                writes.append((at, add(at, C(1)), "byte", src_field(n(v), hf), None))
             elif find_all(pe, lambda x: x == P(2)):
                 unknown.append("store " + sym.fmt(pe))
         rec = {"gate": gate, "ret": ret, "writes": writes, "unknown": unknown, "path": p}
